@@ -165,6 +165,10 @@ def inner_whitespace_inputs():
 
 
 def run(ctx):
+    # statements that are large in one dimension (long lists, chains, many tokens, deep nesting, many statements): the property has no size bound
+    for s in [s for s in gen.scale_texts(ctx.rng)]:
+        oracle(ctx, s)
+    ctx.count('scale texts')
     rng = ctx.rng
     ins = [c['input'] for c in streams.corpus('C09')]
     extra = list(vocabulary_inputs(ctx)) + list(mixed_nesting_inputs(ctx)) + list(inner_whitespace_inputs())
